@@ -421,7 +421,11 @@ func GenImageSpec(r *Rng, maxBlocks int) ImageSpec {
 	nroots := Pick(r, []int{0, 1, 1, 1, 2, 3})
 	s.Roots = []BlkSpec{}
 	for i := 0; i < nroots; i++ {
-		if len(s.Blocks) > 0 && r.Chance(2, 3) {
+		if r.Chance(1, 10) {
+			// an inline root whose CID length (4 or 5 bytes more than the data) sits on a CBOR head
+			// boundary (23|24, 255|256): the header's encoded size changes by a byte there
+			s.Roots = append(s.Roots, BlkSpec{Kind: "id", Seed: uint64(r.Intn(3)), Size: Pick(r, []int{18, 19, 20, 250, 251})})
+		} else if len(s.Blocks) > 0 && r.Chance(2, 3) {
 			s.Roots = append(s.Roots, Pick(r, s.Blocks))
 		} else {
 			s.Roots = append(s.Roots, BlkSpec{Kind: Pick(r, []string{"raw", "cbor", "v0"}), Seed: uint64(r.Intn(4)), Size: r.Range(0, 30)})
